@@ -61,7 +61,7 @@ def run_mdw(ctx, prop="C20"):
         rows = rows3(range(8, 40), ("a",), (1,))
         s = random_script(rng, rows, 60 if thorough else 30, [0], max_wm=20, late=True, p_wm=0.05, p_retract=0.2)
         randoms.append({"cfg": cfg, "in": s})
-    run_ops(ctx, prop, "OpMC_mdw", MDW_BODY, "MdwCfgs", "MdwUniverse", 4 if thorough else 3, randoms, sig_tvf, [prop],
+    run_ops(ctx, prop, "OpMC_mdw", MDW_BODY, "MdwCfgs", "MdwUniverse", 5 if thorough else 3, randoms, sig_tvf, [prop],
             sample=60000 if thorough else 6000)
 
 
